@@ -39,12 +39,13 @@ fn faces_of(o: &ObsVoronoi, i: usize) -> BTreeMap<Key, (f64, bool)> {
 }
 
 /// Conditioning of every cell of the full tessellation (max over its vertices).
-pub fn kappas(c: &Case) -> Vec<f64> {
+pub fn kappas(c: &Case) -> Vec<(f64, f64, f64)> {
+    // (conditioning, position uncertainty, extent) of every cell of the FULL build
     let vi = obs::integrator(c, None);
-    (0..c.n()).map(|i| vi.get_cell_at(i).map_or(1., |cell| obs::vertex_kappa(cell).into_iter().fold(1., f64::max))).collect()
+    crate::cellinfo::cell_infos(c, &vi).into_iter().map(|i| i.map_or((1., 0., 0.), |i| (i.kappa, i.pos, i.r))).collect()
 }
 
-pub fn compare(c: &Case, full: &ObsVoronoi, kappa: &[f64], mask: &[bool], cs: &mut CaseStats) -> Result<bool, String> {
+pub fn compare(c: &Case, full: &ObsVoronoi, kappa: &[(f64, f64, f64)], mask: &[bool], cs: &mut CaseStats) -> Result<bool, String> {
     let n = c.n();
     let part = obs::observe(&obs::build_partial(c, mask));
     let vi = obs::integrator(c, Some(mask));
@@ -83,8 +84,13 @@ pub fn compare(c: &Case, full: &ObsVoronoi, kappa: &[f64], mask: &[bool], cs: &m
                     } else {
                         // integrated from the other side in one of the builds: agreement of the
                         // two sides up to rounding is the subject of C03 (sharper tolerance there)
-                        let tola = thr + 1e-4 * a.abs();
-                        let well = kappa[i] <= tol::KAPPA_WELL && k.0.map_or(true, |j| kappa[j] <= tol::KAPPA_WELL) && !tol::lowdim_area_unreliable(c);
+                        // (same tolerance model as C03: position uncertainty of both cells x perimeter bound)
+                        let (pos, r) = match k.0 {
+                            Some(j) => (kappa[i].1 + kappa[j].1, kappa[i].2.min(kappa[j].2)),
+                            None => (2. * kappa[i].1, kappa[i].2),
+                        };
+                        let tola = pos * crate::cellinfo::face_perimeter_bound(c.d(), r) + 1e-9 * a.abs();
+                        let well = kappa[i].0 <= tol::KAPPA_WELL && k.0.map_or(true, |j| kappa[j].0 <= tol::KAPPA_WELL) && !tol::lowdim_area_unreliable(c);
                         if !well {
                             cs.count("faces_other_side_skipped_ill_conditioned", 1);
                         } else if (a - b).abs() > tola {
